@@ -9,7 +9,7 @@ import random
 import sys
 
 sys.path.insert(0, os.path.dirname(os.path.abspath(__file__)))
-sys.path.insert(0, "/repo/tests")
+sys.path.insert(0, os.environ.get("VERIF_REPO", "/repo") + "/tests")
 
 
 def main():
